@@ -43,7 +43,7 @@ from sigma.exceptions import (
 )
 from sigma.processing.pipeline import ProcessingPipeline
 from sigma.rule import SigmaRule
-from sigma.rule.detection import SigmaDetection, SigmaDetectionItem
+from sigma.rule.detection import EmptySigmaDetections, SigmaDetection, SigmaDetectionItem
 from sigma.types import (
     CompareOperators,
     SigmaBool,
@@ -261,6 +261,14 @@ class Backend(ABC):
                 or self.last_processing_pipeline is None
             ):
                 self.init_processing_pipeline(output_format)
+
+            if isinstance(rule.detection, EmptySigmaDetections):
+                # The rule was loaded with collected errors and has no usable detection section.
+                raise SigmaConversionError(
+                    rule,
+                    rule.source,
+                    "Rule has no valid detection section, it was loaded with errors",
+                )
 
             error_state = "applying processing pipeline on"
             self.last_processing_pipeline.apply(rule)  # 1. Apply transformations
